@@ -2,7 +2,7 @@
 (* Behaviour generation: simulate XState and dump each behaviour's op history as JSON; the   *)
 (* transaction catalogue is exported once so that the Go concretiser has no copy of its own. *)
 EXTENDS XState, Json, Randomization
-ASSUME JsonSerialize("catalog.json", <<[tx |-> TX, genesis |-> GenesisOuts, award |-> Award,
+ASSUME JsonSerialize("catalog.json", <<[tx |-> TX, genesis |-> GenesisOuts, award |-> AwardSched, awards |-> [h \in 1..16 |-> AwardAt(h)],
                                         keys |-> SetToSeq(Keys), addrs |-> Addrs]>>)
 Dump == Len(hist) < MaxOps \/ (JsonSerialize("out/b_" \o ToString(TLCGet("stats").traces) \o ".json", hist) /\ FALSE)
 (* Generation is biased towards operations that do something: TLC's simulator picks uniformly among
